@@ -344,8 +344,8 @@ def run(ctx):
     # caller contexts that end: (config, Cancels)
     canc = [((1, 2, 2, 1, 1, 1, 1, False, False), ("f1",)), ((1, 2, 2, 1, 1, 1, 1, False, False), ("s1",))]
     if thorough:
-        canc += [((1, 2, 2, 1, 1, 1, 2, False, False), ("f1", "s1")), ((2, 1, 2, 2, 1, 1, 1, False, True), ("f1", "s1")),
-                 ((1, 2, 2, 1, 1, 2, 1, True, False), ("f1", "f2"))]
+        # (run once, too large for the tier: 1x2 q2 b1 f1 s2 {f1,s1} 17 190 566 states, 1x2 q2 b1 f2 s1 faults {f1,f2} 22 989 166: both hold)
+        canc += [((2, 1, 2, 2, 1, 1, 1, False, True), ("f1", "s1"))]
         fam += [(2, 1, 1, 1, 1, 1, 1, False, True), (2, 2, 2, 2, 1, 1, 1, False, False), (3, 1, 2, 1, 1, 0, 1, False, True), (2, 1, 1, 1, 1, 2, 1, False, False),
                 (1, 2, 2, 1, 1, 1, 2, True, True), (2, 1, 2, 2, 1, 1, 2, False, True)] + THOROUGH_EXTRA
     cov_cfg = fam[0]
